@@ -10,7 +10,9 @@
     st.sender armor <typ> <brand> <sink> <ops>      the BARE armor encoder stream
                                                     (`NewArmor62EncoderStream`, `FArm.init62` / `writeN` / `close` / `calls`)
 
-  <sink>  `-` or a string of 0/1: which underlying Write calls fail (1 = fails)
+  <sink>  `-` or a string of 0/1: which underlying Write calls fail (1 = fails),
+          optionally followed by `/k.k.…`: how many bytes the successive FAILING
+          writes accept before failing (`(min k len, err)`; default 0)
   <ops>   comma separated: `w:<hex>` Write of these bytes, `g:<off>:<len>` Write
           of position-dependent bytes, `c` Close
   answer  `ok init=<class> calls=<n:class,…> lens=<bytes at the writer after the
@@ -19,6 +21,7 @@
 -/
 import Driver.Util
 import Saltpack.Model.SenderStream
+import Saltpack.Model.Armored
 
 open Saltpack
 
@@ -43,7 +46,11 @@ def parseOp (s : String) : Option Op :=
 
 def parseOps (s : String) : Option (List Op) := (splitList s).mapM parseOp
 
-def parseSink (s : String) : Stream.Sink := (if s = "-" then [] else s.toList).map (· == '1')
+def parseSink (s : String) : Wr :=
+  match s.splitOn "/" with
+  | [a, b] => { sink := (if a = "-" then [] else a.toList).map (· == '1'),
+                part := (b.splitOn ".").filterMap String.toNat? }
+  | _ => { sink := (if s = "-" then [] else s.toList).map (· == '1') }
 
 def cls : Option Err → String
   | none => "ok"
@@ -68,29 +75,29 @@ def answer (initOk : Bool) (tr : List String) (ls : List Nat) (w : Wr) : String 
   s!"ok init={if initOk then "ok" else "io-error"} calls={if tr.isEmpty then "-" else ",".intercalate tr} lens={dots ls} tried={dots w.tried} out={showOut w.bytes}"
 
 /-- a packet stream over the scripted writer -/
-def runPacket (setup : Except Err (Bytes × Cfg)) (sink : Stream.Sink) (ops : List Op) : String :=
+def runPacket (setup : Except Err (Bytes × Cfg)) (w0 : Wr) (ops : List Op) : String :=
   match setup with
   | .error e => s!"err {showErr e}"
   | .ok (hb, cfg) =>
-    let (ok, st0) := PSt.init Wr.write cfg.pieces ({ sink := sink } : Wr) hb
+    let (ok, st0) := PSt.init Wr.write cfg.pieces w0 hb
     if !ok then answer false [] [st0.codec.w.bytes.length] st0.codec.w
     else
       let (st, tr, ls) := runOps (PSt.write Wr.write cfg) (PSt.close Wr.write cfg) (fun s => s.codec.w.bytes.length) ops st0
       answer true tr ls st.codec.w
 
-def runDetached (setup : Except Err (Bytes × (Bytes → Bytes))) (sink : Stream.Sink) (ops : List Op) : String :=
+def runDetached (setup : Except Err (Bytes × (Bytes → Bytes))) (w0 : Wr) (ops : List Op) : String :=
   match setup with
   | .error e => s!"err {showErr e}"
   | .ok (hb, sigPkt) =>
-    let (ok, st0) := DSt.init Wr.write codecPieces ({ sink := sink } : Wr) hb
+    let (ok, st0) := DSt.init Wr.write codecPieces w0 hb
     if !ok then answer false [] [st0.codec.w.bytes.length] st0.codec.w
     else
       let (st, tr, ls) := runOps DSt.write (DSt.close Wr.write codecPieces sigPkt) (fun s => s.codec.w.bytes.length) ops st0
       answer true tr ls st.codec.w
 
 /-- the armored composition: armor header first (`NewArmor62EncoderStream`), then the packet stream's constructor -/
-def runPacketA (typ : Int) (brand : Bytes) (setup : Except Err (Bytes × Cfg)) (sink : Stream.Sink) (ops : List Op) : String :=
-  let (aok, a0) := FArm.init62 typ brand ({ sink := sink } : Wr)
+def runPacketA (typ : Int) (brand : Bytes) (setup : Except Err (Bytes × Cfg)) (w0 : Wr) (ops : List Op) : String :=
+  let (aok, a0) := FArm.init62 typ brand w0
   if !aok then answer false [] [a0.w.bytes.length] a0.w
   else match setup with
   | .error e => s!"ok init={showErr e} calls=- lens={a0.w.bytes.length} tried={dots a0.w.tried} out={showOut a0.w.bytes}"
@@ -101,8 +108,8 @@ def runPacketA (typ : Int) (brand : Bytes) (setup : Except Err (Bytes × Cfg)) (
       let (st, tr, ls) := runOps (PSt.write FArm.write cfg) (armoredClose cfg) (fun s => s.codec.w.w.bytes.length) ops st0
       answer true tr ls st.codec.w.w
 
-def runDetachedA (typ : Int) (brand : Bytes) (setup : Except Err (Bytes × (Bytes → Bytes))) (sink : Stream.Sink) (ops : List Op) : String :=
-  let (aok, a0) := FArm.init62 typ brand ({ sink := sink } : Wr)
+def runDetachedA (typ : Int) (brand : Bytes) (setup : Except Err (Bytes × (Bytes → Bytes))) (w0 : Wr) (ops : List Op) : String :=
+  let (aok, a0) := FArm.init62 typ brand w0
   if !aok then answer false [] [a0.w.bytes.length] a0.w
   else match setup with
   | .error e => s!"ok init={showErr e} calls=- lens={a0.w.bytes.length} tried={dots a0.w.tried} out={showOut a0.w.bytes}"
@@ -116,8 +123,8 @@ def runDetachedA (typ : Int) (brand : Bytes) (setup : Except Err (Bytes × (Byte
 /-- the bare armor encoder stream over the scripted writer, the caller carrying
     on after errors: per call `(n, class)` from `FArm.calls`, the bytes at the
     writer after every call from the same transitions one by one -/
-def runBareArmor (typ : Int) (brand : Bytes) (sink : Stream.Sink) (ops : List Op) : String :=
-  let (aok, a0) := FArm.init62 typ brand ({ sink := sink } : Wr)
+def runBareArmor (typ : Int) (brand : Bytes) (w0 : Wr) (ops : List Op) : String :=
+  let (aok, a0) := FArm.init62 typ brand w0
   if !aok then answer false [] [a0.w.bytes.length] a0.w
   else
     let err (ok : Bool) : Option Err := if ok then none else some .ioError
@@ -138,22 +145,22 @@ def handle (toks : List String) : Option String :=
   | ["st.sender", "enc.a", ma, sender, recips, eph, src, brand, sink, ops] =>
     match ma.toInt?, mkSender sender, mkRecips recips, mkEph eph, mkSource src, ofHex brand, parseOps ops with
     | some ma, some sender, some rs, some eph, some src, some brand, some ops =>
-      some (runPacketA mtEncryption brand (encryptSetupRand RealPrims blockSize codecPieces ⟨ma, 0⟩ sender rs eph src) (parseSink sink) ops)
+      some (runPacketA Encrypt.armorType brand (encryptSetupRand RealPrims blockSize codecPieces ⟨ma, 0⟩ sender rs eph src) (parseSink sink) ops)
     | _, _, _, _, _, _, _ => some bad
   | ["st.sender", "sig.a", ma, signer, src, brand, sink, ops] =>
     match ma.toInt?, ofHex signer, mkSource src, ofHex brand, parseOps ops with
     | some ma, some signer, some src, some brand, some ops =>
-      some (runPacketA mtAttached brand (signSetupRand RealPrims sigBlockSize codecPieces ⟨ma, 0⟩ signer src) (parseSink sink) ops)
+      some (runPacketA Sign.attachedArmorType brand (signSetupRand RealPrims sigBlockSize codecPieces ⟨ma, 0⟩ signer src) (parseSink sink) ops)
     | _, _, _, _, _ => some bad
   | ["st.sender", "sc.a", sender, boxes, syms, eph, src, brand, sink, ops] =>
     match mkSender sender, mkSRecips boxes, mkSRecips syms, mkEph eph, mkSource src, ofHex brand, parseOps ops with
     | some sender, some boxes, some syms, some eph, some src, some brand, some ops =>
-      some (runPacketA mtEncryption brand (signcryptSetupRand RealPrims blockSize codecPieces sender boxes syms eph src) (parseSink sink) ops)
+      some (runPacketA Signcrypt.armorType brand (signcryptSetupRand RealPrims blockSize codecPieces sender boxes syms eph src) (parseSink sink) ops)
     | _, _, _, _, _, _, _ => some bad
   | ["st.sender", "det.a", ma, signer, src, brand, sink, ops] =>
     match ma.toInt?, ofHex signer, mkSource src, ofHex brand, parseOps ops with
     | some ma, some signer, some src, some brand, some ops =>
-      some (runDetachedA mtDetached brand (detachedSetupRand RealPrims ⟨ma, 0⟩ signer src) (parseSink sink) ops)
+      some (runDetachedA Sign.detachedArmorType brand (detachedSetupRand RealPrims ⟨ma, 0⟩ signer src) (parseSink sink) ops)
     | _, _, _, _, _ => some bad
   | ["st.sender", "enc", ma, sender, recips, eph, src, sink, ops] =>
     match ma.toInt?, mkSender sender, mkRecips recips, mkEph eph, mkSource src, parseOps ops with
